@@ -30,7 +30,8 @@ LEVEL_TEXT = ("Structural well-formedness is decided for every emitter and every
               "objective, constraint or NL item is followed by its record, and pending link entries are "
               "flushed after the last producer and before the file is closed, the items of a static link record pair "
               "node k with entry position k.  That index ranges in "
-              "link records lie inside the item-class sizes is a run-time quantity and is not decided.")
+              "link records lie inside the item-class sizes is a run-time quantity and is not decided."
+              "  Also decided (added after the seeded rounds): the export file is truncated when it is opened.")
 LEVEL_NOTE = ("Trusted: clang 14 front end/CFG, tool/mpx.cc, the rule module (incl. the small evaluator "
               "of the escaping function), fmt's handling of '{}' placeholders.")
 DESIGN_REF = "DESIGN.md section 4, C20"
